@@ -93,6 +93,37 @@ def run(scenario):
             clone.delete_arrays("salary")
             if sim.get_array("salary", "2020-01") is None:
                 bad.append("deleting a disk-backed value on the clone removed it from the original")
+        elif scenario == "projection-used-before-cloning":
+            tbs, sim = build()
+            sim.persons.household("rent", "2020-01")            # a formula used person.household before the simulation is cloned
+            clone = sim.clone()
+            clone.delete_arrays("rent")
+            clone.set_input("rent", "2020-01", numpy.array([900.0]))
+            got = clone.persons.household("rent", "2020-01").tolist()
+            if got != [900.0, 900.0]:
+                bad.append(f"person.household on the clone reads the original's households: {got}, the clone holds 900")
+            if sim.persons.household("rent", "2020-01").tolist() != [700.0, 700.0]:
+                bad.append("the original's projection changed")
+        elif scenario == "rewrite-on-clone-same-period":
+            clone.delete_arrays("salary", "2020-02")
+            sim.set_input("salary", "2020-02", numpy.array([1.0, 2.0]))
+            clone2 = sim.clone()
+            clone2.persons.get_holder("salary")._memory_storage.put(numpy.array([7.0, 8.0], dtype=numpy.float32), __import__("openfisca_core").periods.period("2020-02"))
+            if sim.get_array("salary", "2020-02").tolist() != [1.0, 2.0]:
+                bad.append(f"storing a new value for a period on the clone rewrote the array the original holds: {sim.get_array('salary', '2020-02').tolist()}")
+        elif scenario == "eternal-variable":
+            from openfisca_core import variables, periods
+            tbs, sim = build()
+
+            class birth(variables.Variable):
+                value_type = int
+                entity = tbs.person_entity
+                definition_period = periods.DateUnit.ETERNITY
+            tbs.add_variable(birth)
+            sim.set_input("birth", periods.period(periods.DateUnit.ETERNITY), numpy.array([1980, 1990]))
+            clone = sim.clone()
+            if clone.calculate("birth", "2020-01").tolist() != [1980, 1990]:
+                bad.append(f"an eternal variable's input is not readable at an ordinary period on the clone: {clone.calculate('birth', '2020-01').tolist()}")
         elif scenario == "same-content":
             for name, p in (("salary", "2020-01"), ("rent", "2020-01")):
                 a, b = sim.get_array(name, p), clone.get_array(name, p)
